@@ -634,6 +634,86 @@ def call_unslicer_facts(cls, tokc):
     return out
 
 
+def _codec_call(e, recv, meth, q):
+    """`<recv>.<meth>("UTF-8"[, errors])` -> the error handler ("strict" when absent); anything else: Untranslatable"""
+    need(isinstance(e, ast.Call) and isinstance(e.func, ast.Attribute) and e.func.attr == meth and flat(str(U(e.func.value))) == recv,
+         q + ": not %s.%s(..): %s" % (recv, meth, str(U(e))[:80]))
+    args = list(e.args)
+    kws = {k.arg: k.value for k in e.keywords}
+    need(set(kws) <= {"encoding", "errors"} and len(args) <= 2 and not (len(args) >= 1 and "encoding" in kws) and
+         not (len(args) == 2 and "errors" in kws), q + ": arguments of " + str(U(e))[:80])
+    enc = args[0] if args else kws.get("encoding")
+    need(isinstance(enc, ast.Constant) and isinstance(enc.value, str) and enc.value.lower().replace("_", "-") in ("utf-8", "utf8"),
+         q + ": the codec is not the constant UTF-8: " + str(U(e))[:80])
+    err = args[1] if len(args) == 2 else kws.get("errors")
+    if err is None:
+        return "strict"
+    need(isinstance(err, ast.Constant) and isinstance(err.value, str), q + ": error handler is not a constant")
+    return err.value
+
+
+def unicode_codec_facts(mod):
+    """UnicodeSlicer.sliceBody and UnicodeUnslicer.receiveChild: which texts get a wire form, and which bodies are
+    accepted back.  Accepted forms of sliceBody (docstring / comments apart):
+        try: encoded = self.obj.encode("UTF-8")                       (R: the reference text)
+        except UnicodeEncodeError: raise Violation(..)
+        yield encoded
+      | yield self.obj.encode("UTF-8")                                (B: the UnicodeEncodeError escapes)
+      | either of them with errors="surrogatepass"                    (L: a lone surrogate is SENT, as its 3-byte form)
+    unicode_slicer_refuses_unencodable is true for R with the strict handler only.  Every other error handler (replace,
+    ignore, surrogateescape, ..) sends ANOTHER text than the one given and is not modelled: Untranslatable.
+    receiveChild must assign self.string = obj.decode("UTF-8") once, either bare (the UnicodeDecodeError of a body that
+    is not UTF-8 escapes: connection lost) or as the only statement of `try: .. except UnicodeDecodeError: raise
+    Violation(..)`; errors="surrogatepass" there makes the decoder lenient."""
+    q = "UnicodeSlicer.sliceBody"
+    fn = P.find_def(mod, "UnicodeSlicer.sliceBody")
+    body = [x for x in fn.body if not (isinstance(x, ast.Expr) and isinstance(x.value, ast.Constant))]
+    need(not any(isinstance(n, (ast.Return, ast.YieldFrom)) for n in ast.walk(fn)) and
+         len([n for n in ast.walk(fn) if isinstance(n, ast.Yield)]) == 1, q + ": not exactly one yield")
+    if len(body) == 1:
+        need(isinstance(body[0], ast.Expr) and isinstance(body[0].value, ast.Yield), q + ": statement " + str(U(body[0]))[:80])
+        handler = _codec_call(body[0].value.value, "self.obj", "encode", q)
+        refuses = False
+    else:
+        need(len(body) == 2 and isinstance(body[0], ast.Try) and flat(str(U(body[1]))) == "yield encoded", q + ": not `try: ..; yield encoded`")
+        t = body[0]
+        need(len(t.body) == 1 and isinstance(t.body[0], ast.Assign) and len(t.body[0].targets) == 1 and
+             flat(str(U(t.body[0].targets[0]))) == "encoded" and not t.orelse and not t.finalbody and len(t.handlers) == 1 and
+             t.handlers[0].type is not None and flat(str(U(t.handlers[0].type))) == "UnicodeEncodeError" and
+             len(t.handlers[0].body) == 1 and isinstance(t.handlers[0].body[0], ast.Raise) and
+             isinstance(t.handlers[0].body[0].exc, ast.Call) and flat(str(U(t.handlers[0].body[0].exc.func))) == "Violation",
+             q + ": the try statement is not `encoded = ..` / except UnicodeEncodeError: raise Violation(..)")
+        handler = _codec_call(t.body[0].value, "self.obj", "encode", q)
+        refuses = handler == "strict"
+    need(handler in ("strict", "surrogatepass"), q + ": error handler %r sends another text than the one given" % handler)
+    out = ["Definition unicode_slicer_refuses_unencodable : bool := %s.  (* UnicodeSlicer.sliceBody: encode(\"UTF-8\", %s)%s *)"
+           % ("true" if refuses else "false", handler,
+              ", UnicodeEncodeError -> Violation for that one object" if refuses else
+              ": a lone surrogate is sent in its three-byte form" if handler == "surrogatepass" else ": the UnicodeEncodeError escapes")]
+    q = "UnicodeUnslicer.receiveChild"
+    rc = P.find_def(mod, "UnicodeUnslicer.receiveChild")
+    sites = [n for n in ast.walk(rc) if isinstance(n, ast.Assign) and len(n.targets) == 1 and flat(str(U(n.targets[0]))) == "self.string"]
+    need(len(sites) == 1, q + ": expected one assignment to self.string")
+    handler = _codec_call(sites[0].value, "obj", "decode", q)
+    need(handler in ("strict", "surrogatepass"), q + ": error handler %r delivers another text than the one sent" % handler)
+    tries = [n for n in ast.walk(rc) if isinstance(n, ast.Try)]
+    guarded_ = False
+    if tries:
+        need(len(tries) == 1 and len(tries[0].body) == 1 and tries[0].body[0] is sites[0] and not tries[0].orelse and
+             not tries[0].finalbody and len(tries[0].handlers) == 1 and tries[0].handlers[0].type is not None and
+             flat(str(U(tries[0].handlers[0].type))) == "UnicodeDecodeError" and len(tries[0].handlers[0].body) == 1 and
+             isinstance(tries[0].handlers[0].body[0], ast.Raise) and isinstance(tries[0].handlers[0].body[0].exc, ast.Call) and
+             flat(str(U(tries[0].handlers[0].body[0].exc.func))) == "Violation", q + ": unrecognised try statement")
+        guarded_ = True
+    else:
+        need(any(x is sites[0] for x in rc.body), q + ": self.string is not assigned by a top-level statement")
+    out.append("Definition unicode_unslicer_strict_decode : bool := %s.  (* UnicodeUnslicer.receiveChild: obj.decode(\"UTF-8\", %s) *)"
+               % ("true" if handler == "strict" else "false", handler))
+    out.append("Definition unicode_unslicer_undecodable_violation : bool := %s.  (* a body that is not UTF-8: the "
+               "UnicodeDecodeError is turned into a Violation (true) / escapes the unslicer (false) *)" % ("true" if guarded_ else "false"))
+    return out
+
+
 OT = {"list": "OtList", "tuple": "OtTuple", "set": "OtSet", "immutable-set": "OtFset", "dict": "OtDict",
       "unicode": "OtUnicode", "boolean": "OtBool", "none": "OtNone", "my-reference": "OtMyRef", "their-reference": "OtTheirRef"}
 
@@ -827,9 +907,7 @@ def generate():
         out.append("Definition unicode_unslicer_checks_size : bool := true.  (* `%s` -> Violation *)" % U(g.test))
         out.append("Definition unicode_size_factor : Z := %d." % cmpn.comparators[0].left.value)
         out.append("Definition unicode_size_cmp : scmp := %s." % CMP[type(cmpn.ops[0])])
-    need("yield encoded" in U(P.find_def(sl["unicode"], "UnicodeSlicer.sliceBody")) or
-         'yield self.obj.encode("UTF-8")' in U(P.find_def(sl["unicode"], "UnicodeSlicer.sliceBody")) or
-         "yield self.obj.encode('UTF-8')" in U(P.find_def(sl["unicode"], "UnicodeSlicer.sliceBody")), "UnicodeSlicer.sliceBody")
+    out.extend(unicode_codec_facts(sl["unicode"]))
     bu = P.find_def(sl["bool"], "BooleanUnslicer.receiveChild")
     need("if bool(obj) != self.constraint.value:\n                raise Violation" in U(bu).replace("    raise", "raise").replace(
         "if bool(obj) != self.constraint.value:\n            raise", "if bool(obj) != self.constraint.value:\n                raise")
@@ -1137,8 +1215,6 @@ def generate():
          U(P.find_def(P.load("banana.py"), "Banana.populateVocabTable")), "populateVocabTable changed")
     need("table = vocab.INITIAL_VOCAB_TABLES[vocab_table_index]" in U(P.find_def(P.load("broker.py"), "Broker.__init__")),
          "Broker.__init__ no longer installs the negotiated vocab table")
-    need("yield self.obj.encode('UTF-8')" in U(P.find_def(sl["unicode"], "UnicodeSlicer.sliceBody")) or
-         "encoded = self.obj.encode('UTF-8')" in U(P.find_def(sl["unicode"], "UnicodeSlicer.sliceBody")), "UnicodeSlicer.sliceBody")
     # ---------------------------------------------------------------- sharing: which slicers track references, and that
     # no constraint class overrides checkOpentype (the ('reference',) exemption lives in Constraint.checkOpentype only)
     def attr_true(mod, cname, attr):
